@@ -82,12 +82,15 @@ def infer_redirection_step(url):
 
             potential_target = unquote(obvious_redirect_match.group(2))
 
+            # NOTE: the scheme of the target can be written in any case
+            target_start = potential_target[:8].lower()
+
             # Basic HTTPS
-            if potential_target.startswith("https://") and len(potential_target) > 8:
+            if target_start.startswith("https://") and len(potential_target) > 8:
                 target = potential_target
 
             # Basic HTTP
-            elif potential_target.startswith("http://") and len(potential_target) > 7:
+            elif target_start.startswith("http://") and len(potential_target) > 7:
                 target = potential_target
 
             # Basic relative url
